@@ -2,7 +2,7 @@
 # usage: seed_overlay.sh <patch.diff> -- prints a VERIF_EXTRA_OVERLAY value that applies the
 # patch to copies of the touched files under /tmp/seedov.$$ (development aid: lets a seeded
 # change be checked without modifying /repo, e.g. while other checks are running)
-d=/tmp/seedov.$$; mkdir -p $d
+d=${2:-/tmp/seedov.$$}; rm -rf $d; mkdir -p $d
 out=""
 for f in $(grep '^+++ b/' "$1" | sed 's|^+++ b/||'); do
   mkdir -p $d/$(dirname $f); cp /repo/$f $d/$f
